@@ -61,7 +61,7 @@ def inst_has(*subs):
 
 # property -> list of (rule id, optional instance filter)
 PROPS = {
-    'C01': [('SEL-OWNER', None), ('SPREAD-LOOKUP', None), ('SEL-TOTAL', None), ('ENUM-OPEN', None), ('ENUM-SHAPE', None), ('ALIAS-SOLE', None), ('ALIAS-KEY', None), ('GRAMMAR', None), ('WIRE-1', inst_has('field[', 'typename-variant', 'floor/response-field', 'floor/spread', 'floor/typename')),
+    'C01': [('DEP-FEATURES', None), ('SEL-OWNER', None), ('SPREAD-LOOKUP', None), ('SEL-TOTAL', None), ('ENUM-OPEN', None), ('ENUM-SHAPE', None), ('ALIAS-SOLE', None), ('ALIAS-KEY', None), ('GRAMMAR', None), ('WIRE-1', inst_has('field[', 'typename-variant', 'floor/response-field', 'floor/spread', 'floor/typename')),
             ('WIRE-2', inst_has('field[')), ('SEL-FLATTEN', None), ('SEL-EMPTY-ENUM', None), ('ATTR-PRECISION', None),
             ('SEL-ITEM', None), ('SEL-CONSUME', None), ('SEL-PAIR', None), ('TAG-AGREE', None), ('VARIANTS-EXHAUSTIVE', None),
             ('EXTENSIONS', None), ('INGEST-ALL', None), ('ID-TYPING', None), ('ID-ABSENT', None), ('TYPES-2', None), ('TYPES-4', None),
@@ -98,7 +98,7 @@ PROPS = {
     'C14': [('ATTR-PLUMB', inst_has('/independent')), ('RENDER-ALL', None), ('SCAN-GUARD', None), ('GRAMMAR', None), ('DEPR-TABLE', None), ('DEPR-NOTE', None), ('DEPR-ORIGIN', None), ('DEPR-DEFAULT', None), ('SIB-3', None),
             ('ATTR-PRECISION', inst_has('deny_unknown', 'struct/'))],
     'C15': [('FMT-SELF', inst_has('graphql_client::Error', 'PathFragment', 'floor')), ('ENV-ACCEPT', None), ('ENV-ROUNDTRIP', None), ('DISPLAY-FORMAT', None), ('DISPLAY-TOTAL', None)],
-    'C16': [('TYPES-3', None), ('ATTR-PRECISION', inst_has('default', 'deserialize_with')), ('NORM-ID', None), ('GRAMMAR', None), ('ID-SHAPE', None), ('ID-ATTACH', None), ('ID-TYPING', None), ('ID-ABSENT', None), ('ID-HELPER', None)],
+    'C16': [('DEP-FEATURES', None), ('TYPES-3', None), ('ATTR-PRECISION', inst_has('default', 'deserialize_with')), ('NORM-ID', None), ('GRAMMAR', None), ('ID-SHAPE', None), ('ID-ATTACH', None), ('ID-TYPING', None), ('ID-ABSENT', None), ('ID-HELPER', None)],
     'C17': [('SPREAD-LOOKUP', None), ('FMT-SELF', None), ('SET-SCOPE', None), ('VISITED-DISCIPLINE', None), ('DOUBLE-DESCENT', None), ('REC-GUARD', None), ('LOOP-PROGRESS', None), ('NO-ABORT', None), ('PIPE-DRAIN', None)],
     'C18': [('ATTR-SCAN', None), ('DERIVE-SPLIT', None), ('SWAPPED-ARGS', None), ('DERIVE-KEEP', None), ('DEPR-DEFAULT', None), ('SCAN-GUARD', None), ('VALUE-PARSE', None), ('ATTR-PLUMB', None), ('ATTR-DEFAULTS', None), ('ATTR-PATHS', None), ('ATTR-MODE', None)],
     'C19': [('SWAPPED-ARGS', None), ('BODY-STRUCT', None), ('DERIVE-KEEP', None), ('PIPE-DRAIN', None), ('FLAG-PLUMB', None), ('OUT-CONTENT', None), ('OUT-PATH', None), ('NO-WRITE-ON-ERROR', None), ('ONE-ENTRY', None),
